@@ -35,7 +35,7 @@ def body(tier: str, seed: int) -> int:
     rep = Report(PROP, 'quick' if tier.startswith('replay') else tier, seed, 'proof', f'./check {PROP} --tier {tier}')
     run_and_discharge(rep, jobs(tier))
     add_native_functions(rep, ('run_paged_loop_impl', 'run_flat_loop_impl') + HELPERS, 'paged loop with_ring=1 (symbolic flat pointer: flat / hybrid / paged storage), helpers; quick: w=16 loop, w=64 helpers; thorough: all widths and loops')
-    add_native_functions(rep, VALIDITY, 'against the definition of the ghost valid-set V: loop invariants (linear scan, binary search over disjoint ordered ranges, first-intersection fast range, merge loop with a ghost witness map); width independent')
+    add_native_functions(rep, VALIDITY + ('Memory_add_segment',), 'against the definition of the ghost valid-set V: loop invariants (linear scan, binary search over disjoint ordered ranges, first-intersection fast range, merge loop with a ghost witness map); width independent')
     native_assumptions(rep)
     rep.assume('[B only] mem_decide_storage (flat-window construction and copy-in), Memory_add_segment / set_words, build_run_result (ring unrolling), run_measured_loop: exercised by the bounded layout runs, not under contract')
     rep.notes.append('Rep (R2 flat array, R3 word range, R4 validity soundness, R5 cache coherence, R6, normalisation) preserved on every path; ring invariant ring[k % len] == ip of op k for the last len ops')
